@@ -8,6 +8,7 @@ import RichModel.Lemmas.WrapNorm
 import RichModel.Lemmas.WrapTabs
 import RichModel.Lemmas.WrapWhole
 import RichModel.Lemmas.WrapRstrip
+import RichModel.Lemmas.WrapFullKept
 import RichModel.Props.C13
 /-!
 # C02 — word wrapping keeps every character, in order, with its own style
@@ -43,10 +44,9 @@ Tab expansion (`Text.expand_tabs`) re-applies the base style to every character;
 `wrap_fold_keeps_nonspace` therefore compares styles in the normal form `normView` (null style erased, adjacent
 repetitions merged); the sharper comparisons hold under the stated extra hypotheses.
 
-Open obligation (modelled, compared with rich on every run, evaluated directly on rich; not proved here):
-* `wrapLine_style_preserved` (every overflow mode) is proved for the four justify modes that treat lines separately
-  and speaks about the paragraph after tab expansion; for justify "full" with an overflow other than "fold" only
-  `wrap_lines_fit` is proved.
+`wrapLine_style_preserved` (every overflow mode) covers the four justify modes that treat lines separately and
+`wrapLine_style_preserved_full` justify "full"; both speak about the paragraph after tab expansion (which
+`expandTabs_ink'` relates to the paragraph before it).  No open obligation remains for the statement of C02.
 -/
 namespace RichModel.C02
 open RichModel RichModel.Text RichModel.Wrap
@@ -321,6 +321,53 @@ theorem wrapLine_style_preserved [BEq σ] (cw : Char → Nat) (hsp : cw ' ' = 1)
     simp only [Bool.false_eq_true, if_false]
     rw [show (WVariant.fixed chars).text = Variant.repaired from rfl, hdiv]
     simp only [bind, Except.bind] at f1 ⊢
+    exact f1
+
+/-- The same for justify **"full"**, every overflow mode, wrapping on or off: the paragraph's styled string is cut
+into consecutive pieces, there is one produced line per piece, and the non-whitespace characters a produced line shows
+are a prefix of those of its piece — in order, each with the effective style it had (modulo the null style that
+`Text("").join` puts in front of a rebuilt line) — possibly between ellipsis characters.  (The blanks between the words
+of a rebuilt line are new characters; nothing is claimed about them.) -/
+theorem wrapLine_style_preserved_full [BEq σ] [LawfulBEq σ] (cw : Char → Nat) (hsp : cw ' ' = 1) (h2 : ∀ c, cw c ≤ 2)
+    (A : StyleAlg σ) (w : Nat) (hw : 2 ≤ w) (o : Overflow) (nw : Bool) (P : Text σ) (hP : Inv P) :
+    ∃ (lines out : List (Text σ)), (lines.map Text.view).flatten = P.view ∧
+      wrapLine (WVariant.fixed chars) cw A P w Justify.full o nw = .ok out ∧ out.length = lines.length ∧
+      ∀ p ∈ lines.zip out, InkPrefix A p.1 p.2 := by
+  have hwc : ∀ c, cw c ≤ w := fun c => Nat.le_trans (h2 c) hw
+  have finish : ∀ lines : List (Text σ), (∀ l ∈ lines, Inv l) → ∃ out,
+      (justifyLines (WVariant.fixed chars) cw A
+          (lines.map (fun l => Text.rstripEndW (WVariant.fixed chars).rstripChars cw (WVariant.fixed chars).text l w)) w
+          Justify.full o >>= fun justified =>
+        (.ok (justified.map (fun l => l.truncate cw w (some o))) : Except PyErr (List (Text σ)))) = .ok out ∧
+      out.length = lines.length ∧ ∀ p ∈ lines.zip out, InkPrefix A p.1 p.2 := by
+    intro lines hinv
+    obtain ⟨outs, hjf, _, hrel⟩ := justifyFull_spec cw hsp A w
+      (lines.map (fun l => Text.rstripEndW chars cw Variant.repaired l (w : Int)))
+      (by intro s hs; obtain ⟨l, hl, rfl⟩ := List.mem_map.mp hs
+          exact (rstripEnd_kept (chars := chars) cw l (hinv l hl) w).inv)
+    obtain ⟨f1, f2⟩ := fullRel_inkPrefix (chars := chars) cw hsp h2 A w (by omega) o lines outs hinv hrel
+    refine ⟨_, ?_, f1, f2⟩
+    simp only [justifyLines, show (WVariant.fixed chars).text = Variant.repaired from rfl,
+      show (WVariant.fixed chars).rstripChars = chars from rfl, hjf, bind, Except.bind]
+  cases nw with
+  | true =>
+    obtain ⟨out, f1, f2, f3⟩ := finish [P] (by intro l hl; simp only [List.mem_singleton] at hl; subst hl; exact hP)
+    refine ⟨[P], out, by simp, ?_, f2, f3⟩
+    unfold wrapLine
+    simp only [if_true, bind, Except.bind] at f1 ⊢
+    exact f1
+  | false =>
+    obtain ⟨hpw, hin⟩ := Wrap.divideLine_offsets cw P.plain w (o == Overflow.fold) hwc
+    have hasc : AscFrom 0 (divideLine cw P.plain w (o == Overflow.fold)) :=
+      ascFrom_of_pairwise _ 0 (hpw.imp (fun h => Nat.le_of_lt h)) (fun o _ => Nat.zero_le o)
+    obtain ⟨lines, hdiv, hview, _, hall⟩ :=
+      Text.divide_view P _ hP hasc (fun o ho => Nat.le_of_lt (hin o ho).2)
+    obtain ⟨out, f1, f2, f3⟩ := finish lines (fun l hl => (hall l hl).1)
+    refine ⟨lines, out, by rw [hview, pieces_flatten _ _ hasc], ?_, f2, f3⟩
+    unfold wrapLine
+    simp only [Bool.false_eq_true, if_false]
+    rw [show (WVariant.fixed chars).text = Variant.repaired from rfl, hdiv]
+    simp only [bind, Except.bind, show (WVariant.fixed chars).text = Variant.repaired from rfl] at f1 ⊢
     exact f1
 
 /-- released `Lines.justify`: "right" (and "center") hand `pad_left` a *negative* count when the line stays wider than the
